@@ -74,6 +74,8 @@ class Ctx:
         self.open_patterns = []  # signature prefixes of open known findings
         self.t0 = time.time()
         self._since_clear = 0
+        self.f32 = False
+        self.gindex, self.gsize = index, nworkers
 
     # ---- counters -------------------------------------------------------
     def evaluated(self, n=1):
@@ -283,5 +285,5 @@ def _label_seed(label):
 def shard(items, ctx: Ctx):
     """Deterministic round-robin shard of an enumerable for this worker."""
     for i, it in enumerate(items):
-        if i % ctx.nworkers == ctx.index:
+        if i % getattr(ctx, "gsize", ctx.nworkers) == getattr(ctx, "gindex", ctx.index):
             yield it
